@@ -18,7 +18,8 @@ struct tramp {
   uint32_t mxcsr_after;      /* 252 */
   uint8_t xmm_sent[10][16];  /* 256 : xmm6..xmm15 (win64 only) */
   uint8_t xmm_got[10][16];   /* 416 */
-};                           /* 576 */
+  uint64_t align_off;        /* 576 : extra bytes (0, 16, 32, 48) subtracted from rsp before the arguments are pushed */
+};                           /* 584 */
 
 /* Both trampolines are themselves System V functions.  tramp_sysv calls t->fn with the System V
  * convention, tramp_win64 with the Microsoft x64 convention.  One call at a time per thread (thread-local slot). */
